@@ -217,8 +217,14 @@ func (d *Decoder) readClassDef() (interface{}, error) {
 
 //readTagObject read tag object
 func (d *Decoder) readTagObject() (interface{}, error) {
-	i, _ := d.readInt(_tagRead)
+	i, err := d.readInt(_tagRead)
+	if err != nil {
+		return nil, newCodecError("readTagObject", err)
+	}
 	idx := int(i)
+	if idx < 0 || idx >= len(d.clsDefList) {
+		return nil, newCodecError("readTagObject", "cls def ref index %d out of range, %d defined", idx, len(d.clsDefList))
+	}
 	clsD := d.clsDefList[idx]
 	typ, ok := d.typMap[clsD.FullClassName]
 	if !ok {
